@@ -251,7 +251,9 @@ static bool probes_done = false;
 void target_run(Tape &t)
 {
 	if (!probes_done) { probes_done = true; probe_known(); }
-	unsigned cfgb = t.u8(), sizeb = t.u8(), phase = t.u8() % 4, nround = t.u8();
+	unsigned cfgb = t.u8(), sizeb = t.u8(), phase = t.u8() % 5, nround = t.u8();
+	bool hostile = phase == 4;   // data phase, then bytes no honest peer would send: a record announcing a length around the input buffer capacity
+	if (hostile) phase = 3;
 	Pair P;
 	make_pair(P, cfgb, sizeb);
 	bool excl_f4 = known("client-reneg-with-unflushed-plaintext");
@@ -260,6 +262,37 @@ void target_run(Tape &t)
 	std::string hist;
 	unsigned ncmd = 0;
 	uint64_t visited_hash = fnv(P.cfg);
+	if (hostile) {
+		int side = t.u8() & 1;
+		BearEndpoint *e = P.e[side];
+		// drain whatever is pending so that the input side is idle
+		for (int i = 0; i < 50; i++) if (!pump_round(P)) break;
+		size_t cap = e->eng->ibuf_len;
+		size_t n = (cap + 4 - t.u8() % 14) & 0xFFFF;
+		unsigned ver = br_ssl_engine_get_version(e->eng);
+		Bytes w = { (uint8_t)t.pick<unsigned>({ 23, 23, 22, 21 }), (uint8_t)(ver >> 8), (uint8_t)ver, (uint8_t)(n >> 8), (uint8_t)n };
+		w.resize(5 + n + 40, 0x17);
+		size_t off = 0;
+		unsigned csel = t.u8();
+		for (int g = 0; g < 200000 && off < w.size() && !e->closed(); g++) {
+			const uint8_t *pp;
+			size_t k;
+			while ((k = e->app_in_peek(&pp)) > 0) e->app_in_ack(k);
+			if ((k = e->wire_out_peek(&pp)) > 0) e->wire_out_ack(k);
+			size_t room = e->wire_in_room();
+			if (!room) break;
+			size_t c = csel % 3 == 0 ? room : csel % 3 == 1 ? 1 : 1 + (g * 7 + csel) % 64;
+			if (c > room) c = room;
+			if (c > w.size() - off) c = w.size() - off;
+			e->wire_in(w.data() + off, c);   // the endpoint wrapper checks every state invariant after the call
+			off += c;
+		}
+		VF_CHECK(e->closed() && e->error() != 0, "%s: %s fed a record header announcing %zu bytes (input buffer %zu) and filler: %zu bytes taken, engine %s, error %d, state %#x", P.cfg.c_str(), side ? "server" : "client",
+			n, cap, off, e->closed() ? "closed" : "open", e->error(), e->state());
+		stats.cls("hostile-record-length");
+		stats.eval(fmt("hostile/%u/%u/%d/%zu", cfgb, sizeb & 3, side, n));
+		return;
+	}
 	while (!t.exhausted() && ncmd < 90) {
 		unsigned cb = t.u8(), ab = t.u8();
 		int side = ab & 1;
